@@ -26,6 +26,9 @@ def crafted_inferred_chain(rng):
         return d
     n = rng.choice([3, 4])
     en = [ss('en-%d' % k, 'i8%d' % k, [('hypernym', 'en-%d' % (k + 1))] if k < n else []) for k in range(1, n + 1)]
+    # the first synset reaches two different concepts the selection lacks in ONE step (two placeholders, told apart only by
+    # their ILI, must both be returned by get_related / hypernyms)
+    en[0]['relations'] += [{'target': 'en-3', 'relType': rng.choice(['hypernym', 'similar']), 'meta': None}]
     es = [ss('es-1', 'i81'), ss('es-0', '')]
     fr = [ss('fr-2', 'i82', [('hypernym', 'fr-9'), ('similar', 'fr-9')]), ss('fr-9', 'i89')]
     esx = [ss('esx-3', 'i83', []), {'id': 'es-0', 'external': True,
